@@ -34,6 +34,8 @@ partial def steps? (k : Nat) (toks : List String) : Option (List Step) :=
 def unit? (s : String) : Option StepUnit :=
   match stepUnitFromString s with | .ok u => some u | .error _ => none
 
+/-- Model comparison of a successor date. After the C07 predicates of `date.days` / `date.week` (valid, later,
+    year rule) the date is determined, so the MISMATCH is a fallback for inputs outside the domain. -/
 def cmpDate (op : String) (model : Date) (obs : List String) : String :=
   match date3? obs with
   | some (o, []) => if o = model then "ok" else s!"MISMATCH {op} model={showDate model}"
@@ -70,6 +72,51 @@ def firesSpecSpread (s e : Int) (st : Step) : Bool :=
   decide ((s ≤ st.s.m ∧ st.s.m ≤ e) ∨ (s ≤ st.e.m ∧ st.e.m ≤ e))
 def shortStep (st : Step) : Bool := (datesOf st).length < 365
 
+/-- C07 ("n months starting on the first of a month"): the start of the calendar month after a date that is the
+    first of a month. `Date.increasedByMonth` equals it on such dates (statement checked in the audit notes:
+    `C07_month_step`; `C07_valid` proves the `d = 1` part). -/
+def nextMonthStart (t : Date) : Date := if t.m = 12 then ⟨t.y + 1, 1, 1⟩ else ⟨t.y, t.m + 1, 1⟩
+
+/-- C07: a step of `n` months that starts on the first of a month consists of `n` whole calendar months, i.e. the
+    day after its end is the first of the month `n` months later. Steps not starting on a first are skipped
+    (outside the property's domain). -/
+def monthStepsOK (n : Nat) (steps : List Step) : Bool :=
+  steps.all fun st => !(st.s.d == 1 && decide st.s.Valid) || st.e.addDay == iter nextMonthStart n st.s
+
+/-- What C08 (and C20 for unknown names) says about `schedule_from_string`. -/
+inductive FreqSpec where
+  | bits (l : List Bool)   -- the schedule is defined by the property text
+  | reject                 -- "a frequency incompatible with the step length is rejected"
+  | unknown                -- not a frequency name: C20, documented error
+  | open_                  -- the property does not fix the outcome
+deriving DecidableEq
+
+def unitName : StepUnit → String | .day => "day" | .week => "week" | .month => "month"
+
+def weekCompatible (u : StepUnit) (un : Nat) : Bool :=
+  (u == .day && un == 1) || (u == .day && un == 7) || (u == .week && un == 1)
+def dayCompatible (u : StepUnit) (un : Nat) : Bool := u == .day && un == 1
+
+/-- Right-hand sides of `C08_frequency` composed with `C08_end_of_year` / `C08_monthly` / `C08_nsteps`
+    (date enumeration resp. index arithmetic on the observed steps) and of `C20_err_frequency`. -/
+def freqSpec (u : StepUnit) (un : Nat) (steps : List Step) (freq : String) (n : Nat) : FreqSpec :=
+  if freq = "year" ∨ freq = "yearly" then
+    (if steps.all shortStep then .bits (steps.map firesSpecEndOfYear) else .open_)
+  else if freq = "month" ∨ freq = "monthly" then
+    (if steps.all shortStep then .bits (steps.map firesSpecMonthly) else .open_)
+  else if freq = "final_step" then .bits ((List.range steps.length).map fun i => i + 1 == steps.length)
+  -- n = 0 is outside the quantifier of C08 ("n >= 1")
+  else if freq = "every_n_steps" then
+    (if n > 0 then .bits ((List.range steps.length).map fun i => (i + 1) % n == 0) else .open_)
+  else if freq = "every_step" ∨ freq = "time_step" then .bits (List.replicate steps.length true)
+  -- weekly / daily: only the rejection of incompatible step lengths is stated; which steps a compatible weekly
+  -- or daily schedule fires in is not part of the property text
+  else if freq = "week" ∨ freq = "weekly" then (if weekCompatible u un then .open_ else .reject)
+  else if freq = "day" ∨ freq = "daily" then (if dayCompatible u un then .open_ else .reject)
+  -- the empty name (no schedule) is not a frequency name of the property
+  else if freq = "" then .open_
+  else .unknown
+
 def handle (st : State) (cmd : String) (inp obs : List String) : State × String :=
   match cmd, inp with
   | "date.days", n :: rest =>
@@ -101,12 +148,22 @@ def handle (st : State) (cmd : String) (inp obs : List String) : State × String
       if decide t.Valid then
         if !decide o.Valid then (st, "PROPFAIL C07 successor-not-a-valid-date")
         else if !(t.lt o) then (st, "PROPFAIL C07 successor-not-after")
+        -- a month step from the first of a month ends with that calendar month
+        else if t.d == 1 && o != nextMonthStart t then
+          (st, s!"PROPFAIL C07 month_step start={showDate t} next start observed={showDate o}, first of the following month={showDate (nextMonthStart t)}")
+        -- from another day of the month: outside the property's domain (month steps start on the first)
         else (st, cmpDate cmd t.increasedByMonth obs)
       else (st, cmpDate cmd t.increasedByMonth obs)
     | _, _ => (st, "BADLINE")
   | "date.addday", rest =>
     match date3? rest with
-    | some (t, []) => (st, cmpDate cmd t.addDay obs)
+    | some (t, []) =>
+      -- Date::add_day is not used by the Scheduler (step ends come from subtract_day), so C07 does not speak
+      -- about it: MISMATCH for C07. It is the one-day case of the treatment end date of C10 (`date.adddays`).
+      let c := cmpDate cmd t.addDay obs
+      (st, if c.startsWith "MISMATCH" && decide t.Valid then
+             s!"PROPFAIL C10 end_date_is_start_plus_days start={t.y}-{t.m}-{t.d} days=1 expected={t.addDay.y}-{t.addDay.m}-{t.addDay.d} observed={" ".intercalate obs} ;; {c}"
+           else c)
     | _ => (st, "BADLINE")
   -- Date::add_days / subtract_days: n successive days (the end date of a pesticide treatment, C10)
   | "date.adddays", n :: rest =>
@@ -119,12 +176,20 @@ def handle (st : State) (cmd : String) (inp obs : List String) : State × String
     match parseNat? n, date3? rest, date3? obs with
     | some n, some (t, []), some (o, []) =>
       let m := iter Date.subtractDay n t
+      -- Date::subtract_days is called by no library code a property speaks about (only subtract_day is: step ends)
       (st, if o = m then "ok" else s!"MISMATCH date.subdays model={m.y}-{m.m}-{m.d}")
     | _, _, _ => (st, "BADLINE")
   | "date.subday", rest =>
-    match date3? rest with
-    | some (t, []) => (st, cmpDate cmd t.subtractDay obs)
-    | _ => (st, "BADLINE")
+    match date3? rest, date3? obs with
+    | some (t, []), some (o, []) =>
+      -- C07: a step ends the day before the next one starts ("each further step starts the day after the
+      -- previous one ends"): the link `chainOK` tests on every `sched` line, here for one pair
+      -- (`C07_tiles`; Lemmas `subDay_valid`, `addDay_subDay`)
+      if decide t.Valid && !(decide o.Valid && o.addDay == t) then
+        (st, s!"PROPFAIL C07 chain next start={showDate t} step end observed={showDate o}, but the day after it is {showDate o.addDay}")
+      else (st, cmpDate cmd t.subtractDay obs)
+    | some (t, []), _ => (st, cmpDate cmd t.subtractDay obs)
+    | _, _ => (st, "BADLINE")
   | "date.cmp", rest =>
     match date3? rest with
     | some (a, r2) =>
@@ -144,6 +209,7 @@ def handle (st : State) (cmd : String) (inp obs : List String) : State × String
     match parseInts? rest with
     | some [y, m, d] =>
       let r := match Date.ofYMD y m d with | .ok t => "ok " ++ showDate t | .error e => errTok e
+      -- which date texts the string constructor accepts is stated by no property (C07 starts from dates)
       (st, if " ".intercalate obs = r then "ok" else s!"MISMATCH date.parse model={r}")
     | _ => (st, "BADLINE")
   | "sched", u :: n :: rest =>
@@ -155,6 +221,8 @@ def handle (st : State) (cmd : String) (inp obs : List String) : State × String
         match obs with
         | [o] =>
           let st' := { st with steps := [], modelOK := false }
+          -- which malformed (start, end, unit, n) the constructor rejects, and with what exception, is outside the
+          -- statement of C07 (it speaks about the steps of accepted schedulers): model comparison only
           match model with
           | .error k => (st', if o = errTok k then "ok" else s!"MISMATCH sched model={errTok k}")
           | .ok sc => (st', s!"MISMATCH sched model=ok {sc.steps.length}")
@@ -171,6 +239,11 @@ def handle (st : State) (cmd : String) (inp obs : List String) : State × String
               else if (u == .day || (u == .week && n == 1)) && decide (n ≤ 28) &&
                   !(dayStepsOK (if u == .day then (n : Int) else 7) steps) then
                 (st', "PROPFAIL C07 dayStepsOK")
+              -- month steps: n whole calendar months each
+              else if u == .month && !(monthStepsOK n steps) then
+                (st', s!"PROPFAIL C07 month_steps a step of {n} month(s) starting on the first of a month does not end with the last day of its {n}-th month")
+              -- left to the model: multi-week steps (the property states their tiling only, not their length:
+              -- n successive one-week successors, each with the year-end merge) and inputs the model rejects
               else if !agree then
                 (st', match model with
                   | .ok sc => s!"MISMATCH sched model-steps={sc.steps.length}"
@@ -192,7 +265,12 @@ def handle (st : State) (cmd : String) (inp obs : List String) : State × String
         | ["ok", k] => (parseNat? k).any fun k => containing == [k]
         | [o] => o == errTok .invalid_argument && containing.isEmpty
         | _ => false
-      if !propOK then (st, s!"PROPFAIL C07 lookup containing={containing}")
+      -- C20: a date outside the schedule is a documented error (`C20_err_date_outside`: invalid_argument)
+      let c20 := if containing.isEmpty && obs != [errTok .invalid_argument] then
+          s!" ;; PROPFAIL C20 documented_error lookup date outside the schedule expected={errTok .invalid_argument} observed={" ".intercalate obs}"
+        else ""
+      if !propOK then (st, s!"PROPFAIL C07 lookup containing={containing}" ++ c20)
+      -- unreachable once the predicate holds (the result is the unique containing step / the rejection)
       else (st, if " ".intercalate obs = r then "ok" else s!"MISMATCH lookup model={r}")
     | _ => (st, "BADLINE")
   | "yearly", [mo, da] =>
@@ -253,7 +331,29 @@ def handle (st : State) (cmd : String) (inp obs : List String) : State × String
     | some n =>
       let freq := if freq = "<empty>" then "" else freq
       let sc : Scheduler := ⟨st.start, st.end_, st.unit, st.n, st.steps⟩
-      (st, cmpExceptBits cmd (scheduleFromString sc freq n) obs)
+      let cmp := cmpExceptBits cmd (scheduleFromString sc freq n) obs
+      let obsBits : Option (List Bool) := match obs with
+        | ["ok", b] => some (parseBits b) | ["ok"] => some [] | _ => none
+      let o := " ".intercalate obs
+      -- C08 on the observed result: the named schedule is judged by its definition (`C08_frequency` names the
+      -- builder, `C08_end_of_year` / `C08_monthly` / `C08_nsteps` say where it fires), an incompatible frequency
+      -- must be rejected; C20: an unknown name is a documented error (`C20_err_frequency`). The exception KIND
+      -- of an incompatible frequency, the empty name, n = 0 and the firing steps of compatible weekly / daily
+      -- schedules are not stated by C08: model comparison only.
+      match freqSpec st.unit st.n st.steps freq n with
+      | .bits sp =>
+        (st, if obsBits != some sp then
+               s!"PROPFAIL C08 frequency {freq} n={n} observed={o} definition={showBits sp}"
+             else cmp)
+      | .reject =>
+        (st, if obsBits.isSome then
+               s!"PROPFAIL C08 incompatible_frequency_accepted frequency {freq} with steps of {st.n} {unitName st.unit} observed={o}"
+             else cmp)
+      | .unknown =>
+        (st, if obs != [errTok .invalid_argument] then
+               s!"PROPFAIL C20 documented_error fromstring unknown frequency name {freq} expected={errTok .invalid_argument} observed={o} ;; {cmp}"
+             else cmp)
+      | .open_ => (st, cmp)
     | none => (st, "BADLINE")
   | "weather", [size] =>
     match parseNat? size with
@@ -261,7 +361,12 @@ def handle (st : State) (cmd : String) (inp obs : List String) : State × String
       let r := match scheduleWeather st.steps.length size with
         | .ok l => "ok " ++ " ".intercalate (l.map toString)
         | .error e => errTok e
-      (st, if (" ".intercalate obs).trimAscii.toString = r.trimAscii.toString then "ok" else s!"MISMATCH weather model={r}")
+      -- C08: the weather index of step i is i modulo the length of the series (`C08_weather`), for the steps the
+      -- implementation produced; the rejection of an empty series is outside the quantifier (length >= 1)
+      let spec := "ok" :: (List.range st.steps.length).map fun i => toString (i % size)
+      (st, if size > 0 && obs != spec then
+             s!"PROPFAIL C08 weather_index series length={size} steps={st.steps.length} observed={" ".intercalate obs} definition: index of step i = i mod {size}"
+           else if (" ".intercalate obs).trimAscii.toString = r.trimAscii.toString then "ok" else s!"MISMATCH weather model={r}")
     | none => (st, "BADLINE")
   | "actionstep", [bits, step] =>
     match parseNat? step with
@@ -272,6 +377,8 @@ def handle (st : State) (cmd : String) (inp obs : List String) : State × String
       -- C08: the k-th firing step maps to action index k-1 (number of earlier firings), theorem C08_index_bijection
       let firing := sched[step]? == some true
       let spec := (sched.take step).filter id |>.length
+      -- left to the model: the value returned for a step that does not fire and the exception past the end
+      -- (the property maps firing steps only)
       (st, if firing && obs != ["ok", toString spec] then
              s!"PROPFAIL C08 index_bijection step={step} is firing number {spec + 1}, expected index {spec}, observed {obs}"
            else if " ".intercalate obs = r then "ok" else s!"MISMATCH actionstep model={r}")
@@ -279,7 +386,12 @@ def handle (st : State) (cmd : String) (inp obs : List String) : State × String
   | "count", [bits] =>
     let sched := if bits = "-" then [] else parseBits bits
     let r := toString (numberOfScheduledActions sched)
-    (st, if obs = [r] then "ok" else s!"MISMATCH count model={r}")
+    -- C08: "the number of firings equals the number of input rasters the caller must supply"
+    -- (`C08_index_bijection`: the indices of the firing steps are exactly 0 .. count-1)
+    let firings := (sched.filter id).length
+    (st, if obs != [toString firings] then
+           s!"PROPFAIL C08 firing_count schedule={bits} has {firings} firing steps, get_number_of_scheduled_actions observed={" ".intercalate obs}"
+         else if obs = [r] then "ok" else s!"MISMATCH count model={r}")
   -- Config::create_schedules: all calendar settings => the schedules the accessors return
   | "cfgsched", [u, n, s1, s2, s3, e1, e2, e3, ss, se, outF, outN, um, mF, mN, ul, lM, us, sM, sD, ur, rF, rN, uq, qF, qN, wS] =>
     let un (x : String) := if x = "<empty>" then "" else x
@@ -314,7 +426,25 @@ def handle (st : State) (cmd : String) (inp obs : List String) : State × String
       let propFail : Option String :=
         match Scheduler.make c.start c.end_ c.unit c.n, obs.head? with
         | .ok sc, some "ok" =>
-          if !(sc.steps.all shortStep) then none else
+          -- "a frequency incompatible with the step length is rejected" (`C08_frequency`, `C08_config_wiring`):
+          -- create_schedules must not succeed when a feature in use (or the output) names one
+          let incompat (key : String) (use : Bool) (freq : String) : Option String :=
+            if use && freqSpec c.unit c.n sc.steps freq 1 == .reject then
+              some s!"PROPFAIL C08 config_wiring {key} incompatible_frequency_accepted frequency {freq} with steps of {c.n} {unitName c.unit}"
+            else none
+          -- the weather table: index of step i = i mod the length of the series (`C08_weather`)
+          let wchk : Option String :=
+            if c.weatherSize = 0 then none else
+            let sp := ",".intercalate ((List.range sc.steps.length).map fun i => toString (i % c.weatherSize))
+            match getO "weather" with
+            | some v => if v == sp then none else some s!"PROPFAIL C08 config_wiring weather observed={v} definition: index of step i = i mod {c.weatherSize}: {sp}"
+            | none => none
+          (incompat "output" true c.outFreq).orElse fun _ =>
+          (incompat "mortality" c.useMortality c.mortFreq).orElse fun _ =>
+          (incompat "rates" c.useRates c.ratesFreq).orElse fun _ =>
+          (incompat "quarantine" c.useQuarantine c.quarFreq).orElse fun _ =>
+          if !(sc.steps.all shortStep) then wchk else
+          wchk.orElse fun _ =>
           let chk (key : String) (use : Bool) (spec : Option (List Bool)) : Option String :=
             match getO key, spec with
             | some v, some sp =>
@@ -333,12 +463,15 @@ def handle (st : State) (cmd : String) (inp obs : List String) : State × String
         | _, _ => none
       match propFail with
       | some v => (st, v)
+      -- left to the model: the number of steps (C07), steps of a year or longer, a disabled weather table, which
+      -- exception rejects a configuration and configurations the model rejects for other reasons
       | none => (st, if o = r then "ok" else s!"MISMATCH cfgsched model={r}")
     | _, _, _, _ => (st, "BADLINE")
   | "unit", [s] =>
     let s := if s = "<empty>" then "" else s
     let r := match stepUnitFromString s with
       | .ok .day => "ok day" | .ok .week => "ok week" | .ok .month => "ok month" | .error e => errTok e
+    -- step-unit names are in neither C07's statement nor C20's list of documented errors
     (st, if " ".intercalate obs = r then "ok" else s!"MISMATCH unit model={r}")
   | _, _ => (st, "BADLINE")
 
